@@ -503,12 +503,38 @@ class _NV(object):
     def get_data_type(self):
         return self._ms.dtype(self._n)
 
-    def guess_unique_key_id_element(self):
-        kind, v = _interp(self._fns['guess'].body, {'self': self}, [])
-        return v
+    def __getattr__(self, name):
+        # any other method of the node's class is interpreted from its source (helpers a refactoring introduced included)
+        if name.startswith('__'):
+            raise AttributeError(name)
+        fdef = self._fns.get((self._n.kind, name))
+        if fdef is None:
+            raise AttributeError(name)
+        view = self
+
+        def call(*args):
+            params = [a.arg for a in fdef.args.args][1:]
+            if len(args) > len(params) or fdef.args.vararg or fdef.args.kwarg:
+                raise A.NotClosed('call of ' + name)
+            env = {'self': view}
+            defaults = fdef.args.defaults
+            for i, p_ in enumerate(params):
+                if i < len(args):
+                    env[p_] = args[i]
+                else:
+                    k = i - (len(params) - len(defaults))
+                    if k < 0:
+                        raise A.NotClosed('call of ' + name)
+                    env[p_] = A.ev(defaults[k], {})
+            if any(isinstance(x, (ast.Yield, ast.YieldFrom)) for x in ast.walk(fdef)):
+                ys = []
+                _interp(fdef.body, env, [], ys)
+                return tuple(ys)
+            return _interp(fdef.body, env, [])[1]
+        return call
 
 
-def _interp(stmts, env, effects):
+def _interp(stmts, env, effects, yields=None):
     """execute straight-line loader code over model views: if / for over a closed iterable / local assignment /
     attribute store (recorded in `effects`) / return.  Anything else raises NotClosed."""
     for st in stmts:
@@ -516,8 +542,11 @@ def _interp(stmts, env, effects):
             continue
         if isinstance(st, ast.Pass):
             continue
+        if isinstance(st, ast.Expr) and isinstance(st.value, ast.Yield) and yields is not None:
+            yields.append(A.ev(st.value.value, env) if st.value.value is not None else None)
+            continue
         if isinstance(st, ast.If):
-            r = _interp(st.body if A.ev(st.test, env) else st.orelse, env, effects)
+            r = _interp(st.body if A.ev(st.test, env) else st.orelse, env, effects, yields)
             if r[0] != 'next':
                 return r
         elif isinstance(st, ast.Return):
@@ -530,7 +559,7 @@ def _interp(stmts, env, effects):
                 raise A.NotClosed('iterable')
             for item in it:
                 env[st.target.id] = item
-                r = _interp(st.body, env, effects)
+                r = _interp(st.body, env, effects, yields)
                 if r[0] == 'ret':
                     return r
         elif isinstance(st, ast.Assign) and len(st.targets) == 1 and isinstance(st.targets[0], ast.Name):
@@ -564,7 +593,13 @@ def r13_suffix_code_over_data(ctx):
     if len(tail) != 1:
         raise AnalysisError('loop_if.__init__: the loop that makes same-position segment paths unique was not found')
     ms = ctx.maps
-    fns = {'guess': guess}
+    fns = {}
+    for kind, cname in (('segment', 'segment_if'), ('loop', 'loop_if'), ('element', 'element_if'), ('composite', 'composite_if')):
+        for base in ('x12_node', cname):
+            for f_ in ctx.cls('map_if', base).body:
+                if isinstance(f_, ast.FunctionDef) and f_.name not in ('__init__', 'is_segment', 'is_loop', 'is_element', 'is_composite',
+                                                                        'is_map_root', 'get_data_type'):
+                    fns[(kind, f_.name)] = f_
     n_groups = 0
     for f in D.scope_files(ctx):
         m = ms.map(f)
